@@ -103,7 +103,8 @@ def b_second_pass(ctx):
     vals = [-300.0, -200.0, -100.0, 0.0, 100.0, 200.0, 300.0]
     maxlen = 4 if ctx.tier == 'quick' else 5
     extra = [[100, -200, 300, -100, 200, -300, 50], [100, -200, 300, -100, 200, -300, -300], [100, -200, 100, -250, 200, 0, 200, -200],
-             [0, 300, -100, 200, -300, 0], [-100, 200, -300, 300, -50], [200, -100, 300, -300, 100, 100], [100, 200, 300, -300, 0, 100]]
+             [0, 300, -100, 200, -300, 0], [-100, 200, -300, 300, -50], [200, -100, 300, -300, 100, 100], [100, 200, 300, -300, 0, 100],
+             [100.0005, -50, 100, -80], [-100.0005, 50, -100, 80], [300, -100.001, 200, -200, 100]]   # ranges that differ by 5e-6 relative
     ctx.bound = f"all sequences over {{-300,...,300 step 100}} with >= 2 distinct values of length 2..{maxlen} plus {len(extra)} longer hand-picked ones; each with every single insertion of a non-reversal sample; a third of the sequences also as two-point signals in 3 index layouts; extended Neuber law behind Binned"
     ctx.rule = "non-trivial: the periodic sequence has >= 2 closed cycles or the junction is not a plain reversal; distinct by (sequence, insertion)"
     ctx.exhaustive = True
@@ -112,6 +113,7 @@ def b_second_pass(ctx):
         if not ctx.mine():
             continue
         want = periodic_rainflow(seq)
+        got_orig = None
         variants = [('original', None, seq)] + [('insert', (pos, v), y) for pos, v, y in insertions(seq)]
         for kind, info, y in variants:
             if len(set(y)) < 2:
@@ -124,6 +126,8 @@ def b_second_pass(ctx):
             c = rec.collective
             r2 = c[c.run_index == 2]
             got = sorted(zip(r2.loads_min.astype(float), r2.loads_max.astype(float)))
+            if kind == 'original':
+                got_orig = got
             cls = classify(y)
             ctx.case(len(want) >= 2 or cls != 'plain', key=(tuple(y),))
             if got != want:
@@ -140,6 +144,38 @@ def b_second_pass(ctx):
             half = r1[~r1.is_closed_hysteresis.astype(bool)]
             if len(half) and not np.allclose(half.loads_min.astype(float), -half.loads_max.astype(float)):
                 ctx.fail(f'C04:half-hysteresis-not-symmetric:{cls}', f'half counted hysteresis of {y} not symmetric about zero', {'sequence': y})
+        # the unit of the loads is the user's: the same sequence in much larger units (numbers of the order 1e-9), and with two ranges that differ by 5e-6 relative
+        # (added after seed C04-e decided "the new range closes the open hysteresis" with np.isclose): the counting depends on the ORDER of the ranges only
+        if ctx._i % 4 == 1 or len(seq) > 4:
+            from pylife.materiallaws.notch_approximation_law import ExtendedNeuber, Binned
+            variants2 = [('x 1e-9', [v * 1e-11 for v in seq], 400e-11)]       # loads of 1e-9 .. 3e-9
+            if len(seq) >= 4 and len(set(seq)) == len(seq):
+                bump = list(seq)
+                bump[0] = seq[0] * (1 + 5e-6) if seq[0] != 0 else 1e-3
+                variants2.append(('first sample x (1 + 5e-6)', bump, 400.0))
+            for vname, y2, mx in variants2:
+                # scaled: exactly the hystereses of the unscaled run, scaled (whatever they are: the known finding about a deferred last reversal stays out of it);
+                # bumped: the periodic rainflow of the bumped sequence, for plain junctions
+                if vname == 'x 1e-9':
+                    # (not for the hand-picked near-tie sequences: the code's own guard `extent < previous - 1e-12` is absolute, ranges that differ by 5e-15 are a tie for it)
+                    if got_orig is None or any(float(v) != int(v) for v in seq):
+                        continue
+                    want2 = sorted((a_ * 1e-11, b_ * 1e-11) for a_, b_ in got_orig)
+                else:
+                    if classify(seq) != 'plain':
+                        continue
+                    want2 = periodic_rainflow(y2)
+                ctx.case(True, key=(tuple(seq), vname))
+                try:
+                    rec, det = run_hcm(y2, Binned(ExtendedNeuber(206e3, 1184.0, 0.187, 2.5), mx, 50))
+                except Exception as e:   # noqa
+                    ctx.fail(f'C04:scaled:raises:{type(e).__name__}', f'HCM raises {type(e).__name__}: {e} for {y2}', {'sequence': y2})
+                    continue
+                c = rec.collective
+                r2 = c[c.run_index == 2]
+                got2 = sorted(zip(r2.loads_min.astype(float), r2.loads_max.astype(float)))
+                if [(round(a_ / 1e-11, 4), round(b_ / 1e-11, 4)) for a_, b_ in got2] != [(round(a_ / 1e-11, 4), round(b_ / 1e-11, 4)) for a_, b_ in want2] if vname == 'x 1e-9' else got2 != want2:
+                    ctx.fail('C04:second-pass:unit-scale', f'pass 2 of {y2} ({vname}) records {got2}, periodic rainflow gives {want2}', {'sequence': y2})
         # the same sequence as a multi-point signal (index levels load_step / node_id, two points with loads x1 and x0.5; the first listed point decides): load steps
         # labelled 0..n-1, labelled 10, 20, ... and rows listed point by point (added after seeds C04-d / C10-d dropped sort=False from a groupby over the load steps /
         # took every n-th row as the first point's history).  Load-step labels that are NOT ascending were tried as a fourth layout and withdrawn: whether a label or
